@@ -9,6 +9,7 @@ import FxpVerif.Model.Infer
 import FxpVerif.Model.Scale
 import FxpVerif.Model.Reduce
 import FxpVerif.Model.Status
+import FxpVerif.Model.Heap
 /-! Line-protocol helpers for the correspondence driver (core Lean only). -/
 namespace Fxp.Proto
 
